@@ -154,14 +154,20 @@ def rule_args(repo, rule):
         if isinstance(n, ast.Assign) and isinstance(n.value, ast.Lambda) and n.value.args.args and \
                 norm(n.value.body) == "for_each_in(%s, %s)" % (conv, n.value.args.args[0].arg):
             recursers.add(norm(n.targets[0]))
+    # what is returned for each kind of structure, however the dispatch and the locals are written
+    from ..bykind import returns_by_kind
+    byk = returns_by_kind(fe, struct, {"list": ("list",), "tuple": ("tuple",), "dict": ("dict",), "leaf": ("<leaf>",)})
+    if byk["leaf"] and all(norm(e) == "%s(%s)" % (conv, struct) for _r, e in byk["leaf"]):
+        final = [byk["leaf"][0][0]]
     for typ in ("list", "tuple", "dict"):
         iff = handled.get(typ)
-        where = fe.loc(iff) if iff else fe.loc()
-        if iff is None:
+        vals = byk.get(typ) or []
+        where = fe.loc(vals[0][0]) if vals else (fe.loc(iff) if iff else fe.loc())
+        if not vals or any(norm(e) == "%s(%s)" % (conv, struct) for _r, e in vals):
             rule.violation(where, fe.fq, "containers handled: %s" % sorted(handled), "arguments nested in a %s are not converted" % typ,
                            "for_each_in/%s" % typ)
             continue
-        r = iff.body[0].value if iff.body and isinstance(iff.body[0], ast.Return) else None
+        r = vals[0][1] if len({norm(e) for _r, e in vals}) == 1 else None
         txt = norm(r) if r is not None else ""
         filt = any(isinstance(x, ast.comprehension) and x.ifs for x in ast.walk(r)) if r is not None else True
         rec = "for_each_in(%s," % conv in txt.replace(" ", "").replace("for_each_in(%s, " % conv, "for_each_in(%s," % conv) or any(
@@ -281,16 +287,18 @@ def rule_results(repo, rule, res_convs, sn, fc):
     ok = False
     if len(pubs) == 1 and norm(pubs[0].args[0]) == "%s.value" % s_ and az:
         a = az[0]
+        from ..flatten import resolve_locals as _rl
+        recv = _rl(val.node, a.func.value)          # locals holding the public wire / the difference are substituted
         if a.func.attr == "assert_zero":
             v = Valuer({s_: P.sym("s")})
             try:
-                d = v._p(a.func.value)
+                d = v._p(recv)
                 ok = d.is_zero()     # value term of (self - PubVal(self.value)) is identically 0 ...
-                ok = ok and "PubVal" in norm(a.func.value) and s_ in [norm(x) for x in ast.walk(a.func.value) if isinstance(x, ast.Name)]
+                ok = ok and "PubVal" in norm(recv) and s_ in [norm(x) for x in ast.walk(recv) if isinstance(x, ast.Name)]
             except Exception:
                 ok = False
         else:
-            ok = {norm(a.func.value), norm(a.args[0])} == {s_, norm(pubs[0])}
+            ok = {norm(recv), norm(_rl(val.node, a.args[0]))} == {s_, norm(pubs[0])}
     rets = [n for n in ast.walk(val.node) if isinstance(n, ast.Return)]
     if ok and rets and norm(rets[0].value) == "%s.value" % s_:
         rule.ok(val.loc(), val.fq, norm(az[0]), "one public wire with the same value, constrained equal; returns the plain value")
